@@ -1027,6 +1027,8 @@ class Interp:
                 else:
                     raise OOD("loop value of debatable type (int <- %s)" % v.k)
             elif want == "f":
+                if v.k == "i" and float(v.v) != v.v:
+                    raise OOD("integer loop value not representable as a float")
                 if v.k in "if":
                     vals.append(convert(v, "f"))
                 elif v.k in "sc":
